@@ -168,8 +168,16 @@ structure GeneRef where
   refRegion : Seq
   start : Int
 
-/-- `GeneInfo.set_reference_sequence(start, end, chr_record)`: the slice `chr_record[start-1:end]` and a fresh memo -/
+/-- `GeneInfo.set_reference_sequence(start, end, chr_record)`: `all_read_region_start = max(1, start)` (a read cluster
+    that begins at the first base of a contig has the 0-based start 0), the slice
+    `chr_record[all_read_region_start-1:end]` and a fresh memo -/
 def setReferenceSequence (chr : Seq) (start end_ : Int) : GeneRef × List ((Iv × Strand) × Bool) :=
+  let s := max 1 start
+  ({ refRegion := pySlice chr (s - 1) end_, start := s }, [])
+
+/-- before the clamp: for `start ≤ 0` the slice start `start - 1` is negative, Python counts it from the end of the
+    chromosome and the region comes out empty (no Canonical flag at all for that locus) -/
+def setReferenceSequenceNoClamp (chr : Seq) (start end_ : Int) : GeneRef × List ((Iv × Strand) × Bool) :=
   ({ refRegion := pySlice chr (start - 1) end_, start := start }, [])
 
 /-- `gene_info.canonical_sites` after the `fix:` commits (key = (intron, strand)) -/
